@@ -357,4 +357,61 @@ class C02c(Obligation):
                           'searched in the body of that MRO entry')
 
 
-OBLIGATIONS = [C02a, C02b, C02c]
+class DecValue:
+    def __init__(self, tag, log):
+        self.tag, self.log = tag, log
+
+    def __len__(self):
+        return 1
+
+    def execute(self, arguments):
+        self.log.append(self.tag)
+        return Wrapped(self.tag, arguments)
+
+
+class Wrapped:
+    def __init__(self, tag, arguments):
+        self.tag, self.arguments = tag, arguments
+
+    def __len__(self):
+        return 1
+
+    def __iter__(self):
+        return iter([self])
+
+
+class C02d(Obligation):
+    id = 'C02.d'
+    title = 'stacked decorators are applied bottom-up, as Python does'
+    pattern = 'P3 (decorator inference and execution are recording stubs)'
+    assumptions = ('a definition with n<=3 decorators; inferring and executing a decorator is a stub recording the order',)
+
+    def configs(self, tier):
+        return [dict(n=n) for n in (1, 2, 3)]
+
+    def scenario(self, ctx, cfg):
+        n = cfg['n']
+        log = []
+        ctx.int('unused')
+        decs = [Obj(tag='dec%d' % i, children=[Obj(), Obj(tag='dec%d' % i), Obj()]) for i in range(n)]
+        node = Obj(type='funcdef', get_decorators=lambda: list(decs))
+        context = Obj(inference_state=None, infer_node=lambda expr: DecValue(expr.tag, log))
+        ctx.patch(jst, 'is_big_annoying_library', lambda context: False)
+        ctx.patch(jst.FunctionValue, 'from_context', lambda context, node: 'FUNCTION')
+        ctx.patch(jst, 'ValueSet', lambda values: list(values))
+        ctx.patch(jst.arguments, 'ValuesArguments', lambda values: ('args', values))
+        ctx.patch(jst, 'Decoratee', lambda c, v: ('decoratee', c.tag))
+        raw = jst._apply_decorators
+        while getattr(raw, '__closure__', None):
+            inner = [c.cell_contents for c in raw.__closure__ if callable(c.cell_contents) and hasattr(c.cell_contents, '__code__')]
+            if not inner:
+                break
+            raw = inner[0]
+        ctx.force(raw)
+        out = ctx.call(raw, context, node)
+        ctx.check(out.exc is None, 'never raises')
+        ctx.check(log == ['dec%d' % i for i in reversed(range(n))],
+                  'the decorator nearest to the def is applied first, the topmost last')
+
+
+OBLIGATIONS = [C02a, C02b, C02c, C02d]
